@@ -35,6 +35,10 @@ pub enum Damage {
     Corrupt(Vec<(u16, u8)>),
     DupSlice(u16, u16),
     Paths(u8),
+    /// move one element subtree to another tag boundary (possibly inside another element)
+    MoveSubtree(u16, u16),
+    /// copy one element subtree to another tag boundary
+    CopySubtree(u16, u16),
 }
 #[derive(Debug, Clone, Hash, PartialEq, Eq, Serialize, Deserialize)]
 pub struct Case {
@@ -244,6 +248,47 @@ fn apply(doc: &[u8], d: &Damage) -> (Vec<u8>, Vec<usize>) {
             }
             (out, pos)
         }
+        Damage::MoveSubtree(f, t) | Damage::CopySubtree(f, t) => {
+            let opens: Vec<usize> = tags.iter().enumerate().filter(|(_, t)| t.kind == Kind::Open).map(|(i, _)| i).collect();
+            let Some(&i) = pick(&opens, *f) else { return (doc.to_vec(), vec![]) };
+            let mut depth = 0;
+            let mut end = tags[i].end;
+            for u in &tags[i..] {
+                match u.kind {
+                    Kind::Open => depth += 1,
+                    Kind::Close => {
+                        depth -= 1;
+                        if depth == 0 {
+                            end = u.end;
+                            break;
+                        }
+                    }
+                    _ => {}
+                }
+            }
+            let (a, b) = (tags[i].start, end);
+            // destination: the end of some tag outside the moved subtree
+            let dests: Vec<usize> = tags.iter().map(|t| t.end).filter(|e| *e <= a || *e >= b).collect();
+            let Some(&dst) = pick(&dests, *t) else { return (doc.to_vec(), vec![]) };
+            let sub = doc[a..b].to_vec();
+            let mut out = vec![];
+            if matches!(d, Damage::CopySubtree(..)) {
+                out.extend_from_slice(&doc[..dst]);
+                out.extend_from_slice(&sub);
+                out.extend_from_slice(&doc[dst..]);
+            } else if dst <= a {
+                out.extend_from_slice(&doc[..dst]);
+                out.extend_from_slice(&sub);
+                out.extend_from_slice(&doc[dst..a]);
+                out.extend_from_slice(&doc[b..]);
+            } else {
+                out.extend_from_slice(&doc[..a]);
+                out.extend_from_slice(&doc[b..dst]);
+                out.extend_from_slice(&sub);
+                out.extend_from_slice(&doc[dst..]);
+            }
+            (out, vec![a, dst])
+        }
         Damage::DupSlice(x, y) => {
             let (i, j) = (idx(*x, doc.len()), idx(*y, doc.len()));
             let (i, j) = (i.min(j), i.max(j).min(i.min(j) + 400));
@@ -292,7 +337,16 @@ pub fn check(c: &Case) -> CheckResult {
         let ws_file = write_docs(&[b" \n\t ".to_vec()], "w")[0].clone();
         let lt_file = write_docs(&[b"<".to_vec()], "l")[0].clone();
         let missing = dir.join("does-not-exist.xml").to_string_lossy().to_string();
-        let paths: Vec<String> = match k % 9 {
+        let parent = dir.join("..").to_string_lossy().to_string();
+        let paths: Vec<String> = match k % 16 {
+            // several paths, one of them degenerate (no file name / empty / directory / missing)
+            9 => valid.into_iter().chain([String::new()]).collect(),
+            10 => [String::new()].into_iter().chain(valid).collect(),
+            11 => [parent].into_iter().chain(valid).collect(),
+            12 => valid.into_iter().chain(["/".to_string()]).collect(),
+            13 => vec![String::new(), missing],
+            14 => vec!["..".to_string(), ".".to_string()],
+            15 => valid.clone().into_iter().chain(valid).collect(),
             0 => vec![missing],
             1 => vec![String::new()],
             2 => vec![dir.to_string_lossy().to_string()],
@@ -369,6 +423,7 @@ pub fn check(c: &Case) -> CheckResult {
             Damage::DeleteAttr(_) => "attribute-deleted",
             Damage::Corrupt(_) => "bytes-corrupted",
             Damage::DupSlice(..) => "slice-duplicated",
+            Damage::MoveSubtree(..) | Damage::CopySubtree(..) => "subtree-moved",
             _ => "other",
         };
         let cls = judge(load(&paths), &format!("{}-inside-{}", kind, place), &|| {
@@ -383,6 +438,7 @@ pub fn check(c: &Case) -> CheckResult {
             "end-tag-deleted" => "damage:end-tag-deleted",
             "attribute-deleted" => "damage:attribute-deleted",
             "bytes-corrupted" => "damage:bytes-corrupted",
+            "subtree-moved" => "damage:subtree-moved-or-copied",
             _ => "damage:slice-duplicated",
         });
         pass.nontrivial = changed && place != "-";
@@ -411,7 +467,9 @@ fn damage() -> BoxedStrategy<Damage> {
         5 => any::<u16>().prop_map(Damage::DeleteAttr),
         6 => vec((any::<u16>(), byte), 1..5).prop_map(Damage::Corrupt),
         2 => any::<(u16, u16)>().prop_map(|(a, b)| Damage::DupSlice(a, b)),
-        1 => (0u8..9).prop_map(Damage::Paths),
+        4 => any::<(u16, u16)>().prop_map(|(a, b)| Damage::MoveSubtree(a, b)),
+        3 => any::<(u16, u16)>().prop_map(|(a, b)| Damage::CopySubtree(a, b)),
+        1 => (0u8..16).prop_map(Damage::Paths),
     ]
     .boxed()
 }
@@ -423,6 +481,8 @@ fn element_damage() -> BoxedStrategy<Damage> {
         4 => any::<u16>().prop_map(Damage::DeleteEndTag),
         6 => any::<u16>().prop_map(Damage::DeleteAttr),
         2 => vec((any::<u16>(), byte), 1..3).prop_map(Damage::Corrupt),
+        3 => any::<(u16, u16)>().prop_map(|(a, b)| Damage::MoveSubtree(a, b)),
+        2 => any::<(u16, u16)>().prop_map(|(a, b)| Damage::CopySubtree(a, b)),
     ]
     .boxed()
 }
@@ -458,8 +518,8 @@ const TOKENS: [&[u8]; 30] = [
     b"<APPLICATION_ID>",
     b"<fx:SIGNAL ID=\"S\">",
     b"</fx:SIGNAL>",
-    b"<fx:CODING>",
-    b"</fx:CODING>",
+    b"<fx:CODING-REF ID-REF=\"C\"/>",
+    b"<fx:CODING ID=\"C\"><ho:CODED-TYPE ho:BASE-DATA-TYPE=\"A_UINT8\"/>",
     b"<ho:DESC>",
     b"<",
     b"&",
@@ -488,7 +548,7 @@ pub fn run(run: &Run) {
          damages, then EVERY truncation offset from the first damage on'; damage = EVERY truncation offset of the \
          base document (sample files: enumerated section; generated documents: enumerated inside the case, counted in sub_evaluations), deletion of one \
          element subtree / start tag / end tag / attribute, 1..4 corrupted bytes (markup characters, NUL, invalid UTF-8), duplicated slices, one damaged \
-         member of a multi-file set, and special path sets (nonexistent, empty string, directory, empty file, whitespace, no paths); every load runs in \
+         member of a multi-file set, and special path sets (nonexistent, empty string, directory, empty file, whitespace, no paths, several paths with a degenerate one among them); element subtrees moved or copied to another place (also into another element); every load runs in \
          an evaluator child process and must answer 'model' or 'refused'; violation = panic, child death, or more than 10 s of CPU for one load (2 s \
          while shrinking, re-confirmed with 10 s); non-trivial = damaged document differs from its base and the damage lies inside a PDU / FRAME / \
          SIGNAL / CODING element (all-truncation cases: the document has such an element); distinct by the whole case",
